@@ -35,7 +35,7 @@ def gates(tier):
         "shapes": {c: 5 * k for c in ["eps_arc", "multi_initial", "multi_final", "initial_and_final", "depth:3", "sr:Q",
                                       "sr:Boolean", "sr:MaxTimes", "sr:Real", "sr:Float", "op:star", "op:plus", "op:*", "op:+",
                                       "op:reverse", "const:from_strings", "const:lift", "const:zero", "const:one", "from_strings:prefix-member", "scale:big-automaton",
-                                      "class:exported-with-semiring-class-weights", "class:base-with-Float"]},
+                                      "class:exported-with-semiring-class-weights", "class:base-with-Float"]} | {"scale:long-string-operands": k},
         "min_hashseeds": 2,
     }
 
@@ -79,9 +79,67 @@ def depth_of(e):
     return 1 + max(depth_of(s) for s in e[1:] if isinstance(s, list))
 
 
+def gen_long(rng):
+    """scale: operands with 130-170 states each (the automata of two 130-170-token strings): union, concatenation,
+    reversal and closure of operands that together have several hundred states."""
+    u = [rng.choice("ab") for _ in range(rng.randint(130, 170))]
+    v = [rng.choice("ab") for _ in range(rng.randint(130, 170))]
+    return {"long": True, "u": u, "v": v, "R": rng.choice(["Boolean", "Real", "Float", "MaxTimes"]), "wu": Fr(rng.randint(1, 4), 8)}
+
+
+def run_long(case, ctx):
+    from genlm.grammar.wfsa import base, field_wfsa
+
+    from rv import codec, core, lib
+    from rv import semirings as SR
+    from rv.core import close2
+
+    R = case["R"]
+    cls_ = field_wfsa.WFSA if R == "Float" else base.WFSA
+    Rcls = SR.BY_NAME[R]
+    conv, zero, one, idem = lib._conv_for(R)
+    u, v = tuple(case["u"]), tuple(case["v"])
+    wu = conv(case["wu"])
+    exact = R in ("Q", "Boolean", "MaxTimes")
+    ctx.case(codec.fingerprint(case), True, ["scale:long-string-operands", f"sr:{R}"])
+    ctx.sample({"len_u": len(u), "len_v": len(v), "R": R})
+
+    def same(have, wv):
+        if exact:
+            return lib.same(R, have, wv, exact=True, trunc=False)
+        return close2(lib.have_value(R, have), lib.want_value(R, wv), 1e-8, 1e-12)
+
+    with core.default_recursion_budget(ctx):
+        ok, A = ctx.call(APIS[0], case, cls_.from_string, u, Rcls, lib.lib_weight(R, case["wu"], 0))
+        ok2, B = ctx.call(APIS[0], case, cls_.from_string, v, Rcls)
+        if not (ok and ok2):
+            return
+        eqv = wu if u == v else zero
+        tests = [
+            (APIS[0], "+", lambda: A + B, [(u, wu + (one if u == v else zero)), (v, one + eqv), (u[:-1], zero), (u + v, zero)]),
+            (APIS[1], "*", lambda: A * B, [(u + v, wu * one), (u, zero), (v + u, wu if v + u == u + v else zero), (u + v[:-1], zero)]),
+            (APIS[4], "reverse", lambda: A.reverse, [(u[::-1], wu), (u, wu if u == u[::-1] else zero)]),
+            (APIS[3], "plus", lambda: A.kleene_plus(), [(u, wu), (u + u, wu * wu), (u[:-1], zero)]),
+            (APIS[2], "star", lambda: B.star(), [((), one), (v, one), (v + v, one), (v + v[:5], zero)]),
+            (APIS[0], "+", lambda: (A + B) + A, [(u, wu + wu + (one if u == v else zero)), (v, one + eqv + eqv)]),
+        ]
+        for api, name, thunk, table in tests:
+            c2 = dict(case, op=name)
+            ok, M = ctx.call(api, c2, thunk, mech_prefix=name)
+            if not ok:
+                continue
+            for x, w in table:
+                ok, val = ctx.call(api, c2, M, x, mech_prefix=f"{name}(x)")
+                if ok:
+                    ctx.check(api, same(val, w), f"{name}/value/long-string-operands", dict(c2, len_x=len(x)),
+                              {"len_x": len(x), "have": val, "want": lib.want_value(R, w)})
+
+
 def gen_case(rng, spec):
     from rv.gen import automata as GA
 
+    if rng.random() < 0.004:
+        return gen_long(rng)
     nops = rng.randint(1, 3)
     ops = []
     for _ in range(nops):
@@ -117,6 +175,8 @@ def run_case(case, ctx):
     from rv.gen import grammars as GG
     from rv.ref import fsaref
 
+    if case.get("long"):
+        return run_long(case, ctx)
     R = case["R"]
     cls_ = field_wfsa.WFSA if R == "Float" else base.WFSA
     cross = case.get("klass")
